@@ -259,6 +259,7 @@ def run_single(case: dict[str, Any], stats: Stats) -> list[Violation]:
     out: list[Violation] = []
     detail = {"outcome": {k: o.get(k) for k in ("kind", "ret", "exc", "announced", "log_tail", "stdout", "argv", "fired")}}
     if o["kind"] == "timeout":
+        stats.bump("no_verdict(step budget exceeded: termination is C15's subject)")
         return out
     if bad:
         if o["ok"]:
